@@ -10,7 +10,7 @@ from __future__ import annotations
 import numpy as np
 
 from porepy.utils.array_operations import SparseNdArray
-from engines.history import Op, run_history
+from engines.history import Observer, Op, run_history
 from simkit.runner import Workload
 from simkit.trace import Trace, Violation
 
@@ -27,7 +27,7 @@ ASSUMPTIONS = [
     "values are small integers stored as floats so additive sums are exact in any order (bitwise comparison is sound)",
     "coordinates are integers, as the class documents",
 ]
-PROBES = ["dup_in_batch", "overlap_partial", "overlap_all", "overlap_unsorted_ge2", "batch_not_sorted", "additive_fresh_coordinate",
+PROBES = ["observation_sparse", "observation_end", "dup_in_batch", "overlap_partial", "overlap_all", "overlap_unsorted_ge2", "batch_not_sorted", "additive_fresh_coordinate",
           "absent_read_rejected", "empty_batch", "value_dim_gt1", "negative_coordinate", "query_with_duplicates"]
 
 
@@ -50,7 +50,11 @@ def run_history_c46(ch, tr: Trace) -> None:
         counter[0] += 1
         return np.array([counter[0] * 8 + j for j in range(vdim)], dtype=float)
 
-    def check_all(where: str):
+    obs = Observer(ch, tr)
+
+    def check_all(where: str, force=False):
+        if not (force or obs.due()):
+            return
         if arr._coords.shape[1] != len(model):
             raise Violation("stored_coordinates_unique", f"{arr._coords.shape[1]} stored columns for {len(model)} distinct inserted coordinates ({where})")
         if not model:
@@ -155,7 +159,8 @@ def run_history_c46(ch, tr: Trace) -> None:
         Op("get_absent", 1, op_get_absent),
         Op("add_empty", 1, op_add_empty),
     ]
-    run_history(ch, tr, ops, 2, 14)
+    run_history(ch, tr, ops, 2, 14, diagnose=lambda w: check_all(w, force=True))
+    check_all("the end of the history", force=True)
     tr.emit("end", len(model))
 
 
